@@ -39,6 +39,10 @@ class Instr:
             elif k == "aug":
                 out.append(f"{pad}{st[1]} {st[2]}= {st[3]}\n")
                 out.append(f"{pad}__T.{'lv' if st[1] in loopvars else 'st'}({st[1]!r}, {st[1]})\n")
+            elif k == "tassign":
+                out.append(f"{pad}{', '.join(st[1])} = {', '.join(st[2])}\n")
+                for x in st[1]:
+                    out.append(f"{pad}__T.{'lv' if x in loopvars else 'st'}({x!r}, {x})\n")
             elif k == "write":
                 pass
             elif k == "return":
@@ -300,9 +304,31 @@ class CtlGen:
                 ch = set(readable) | {i}
                 body = self.block(ch, known, depth - 1, True)
                 out.append(("for", i, str(rng.choice([0, 1, 2, 3])), body))
+            elif 0.44 <= r < 0.52:
+                out += self.tuple_store(readable, known)
             else:
                 out += self.store(readable, known, nested)
         return out
+
+    def tuple_store(self, readable, known):
+        """x, y = e1, e2 declaring two or three new names of different kinds, or a swap of two readable names of one kind"""
+        rng = self.rng
+        rd = self.rd(readable)
+        same = [k for k in ("int", "float") if len(rd[k]) >= 2]
+        self.shapes["tuple"] = self.shapes.get("tuple", 0) + 1
+        if same and rng.random() < 0.4:
+            a, b = rng.sample(rd[rng.choice(same)], 2)
+            return [("tassign", [a, b], [b, a]), ("write", a), ("write", b)]
+        kinds = [rng.choice(["int", "float", "bool", "str"]) for _ in range(rng.choice([2, 2, 3]))]
+        srcs = [self.g.expr(k, rng.choice([0, 1]), rd) for k in kinds]
+        names = []
+        for k in kinds:
+            x = self.fresh()
+            self.kind[x] = k
+            known.add(x)
+            readable.add(x)
+            names.append(x)
+        return [("tassign", names, srcs)] + [("write", x) for x in names]
 
     def program(self):
         rng = self.rng
